@@ -467,6 +467,9 @@ def run(rep):
     quick = rep.tier == "quick"
     jobs = [(linear_shard, (k, rep.tier)) for k in ("dense", "direct", "lateral")]
     jobs += [(stateful_shard, (k, rep.tier)) for k in ("dense", "direct", "lateral", "conv")]
+    # a maximum delay of exactly 0.0 is the undelayed map (shared with C06)
+    import checks.c06_delay as c06
+    jobs += [(c06.zero_maxdelay_shard, (k, sk, 2)) for k in ("dense", "direct", "lateral", "conv", "conv22") for sk in ("delta", "exp")]
     sizes = (3, 4) if quick else (1, 2, 3, 4, 5)
     for H in sizes:
         for Wd in sizes:
